@@ -732,7 +732,7 @@ mod eager {
 
     use super::*;
 
-    #[derive(Default)]
+    #[derive(Default, Debug)]
     struct Chan {
         q: Mutex<(VecDeque<u8>, bool)>,
         cv: Condvar,
@@ -769,6 +769,7 @@ mod eager {
     }
 
     /// the peer's blocking stream
+    #[derive(Debug)]
     struct Blocking {
         inc: Arc<Chan>,
         out: Arc<Chan>,
